@@ -154,6 +154,8 @@ def run(tier, seed):
     fixed.append(("CREATE TABLE people (id uuid PRIMARY KEY, nick text, born timestamptz NOT NULL, n int);\n",
                   {"a_people.sql": "-- name: ByNick :many\nSELECT id, n FROM people WHERE nick = $1;\n\n-- name: Born :one\nSELECT born FROM people WHERE n = $1;\n",
                    "b_plain.sql": "-- name: CountPeople :one\nSELECT count(*) FROM people;\n\n-- name: Purge :exec\nDELETE FROM people WHERE n = 0;\n"}))
+    fixed.append(("CREATE TABLE visits (id int PRIMARY KEY, hits int NOT NULL, hits_2 int NOT NULL, hits2 int);\n",
+                  "-- name: Pairs :many\nSELECT a.hits, b.hits, a.hits_2, b.hits2 FROM visits a JOIN visits b ON a.id = b.id WHERE a.hits = $1 AND b.hits = $2 AND a.hits_2 = $3;\n"))
     for inp in range(n_inputs):
         schema, queries = fixed[inp] if inp < len(fixed) else inputs(rng)
         if isinstance(queries, str) and inp >= len(fixed) and queries.count("-- name:") > 1 and rng.random() < 0.4:
@@ -162,6 +164,9 @@ def run(tier, seed):
             queries = {"a.sql": "".join(parts[:k]), "b.sql": "".join(parts[k:])}
         qpath = "queries" if isinstance(queries, dict) else "query.sql"
         ov = [{"go_type": "example.com/x.ID", "db_type": "uuid"}] if rng.random() < 0.4 else None
+        if rng.random() < 0.3:
+            # the table part of a column override is the table's name, not the name of its model struct
+            ov = (ov or []) + [{"go_type": "example.com/x.Text", "column": rng.choice(["author.bio", "author.name", "book.title", "order.id", "item.name", "author.id"])}]
         rn = {"id": "Ident"} if rng.random() < 0.3 else None
         nm = rng.choice(["db", "db", ""])
         jobs, meta = [], []
